@@ -331,6 +331,20 @@ func exec14On(doc *kyaml.RNode, c case14) (cls string, found *kyaml.RNode, msg s
 			found, e = doc.Pipe(kyaml.Lookup(c.Path...), kyaml.Clear(c.Name))
 		case "putscalar":
 			found, e = doc.Pipe(kyaml.LookupCreate(kyaml.ScalarNode, c.Path...), kyaml.FieldSetter{Value: c.Value.build()})
+		case "copyindep":
+			// clear, copy, write to the copy, write to the original: both documents are observed
+			if _, e = doc.Pipe(kyaml.Lookup(c.Path...), kyaml.Clear(c.Name)); e != nil {
+				return e
+			}
+			cp := doc.Copy()
+			if _, e = cp.Pipe(kyaml.LookupCreate(kyaml.MappingNode, c.Path...), kyaml.SetField("zz1", kyaml.NewScalarRNode("1"))); e != nil {
+				// the model runs the put on the original first: same error either way (same node kinds)
+				return e
+			}
+			if _, e = doc.Pipe(kyaml.LookupCreate(kyaml.MappingNode, c.Path...), kyaml.SetField("zz2", kyaml.NewScalarRNode("2"))); e != nil {
+				return e
+			}
+			found = cp
 		case "fieldspec":
 			_, e = doc.Pipe(c.FS.filter(nil))
 		case "fsslice":
@@ -822,6 +836,9 @@ func laws14doc(s sink, c case14, d *docCtx14, probes []probe14) (cls string, got
 				report("absent_clear_noop", fmt.Sprintf("Clear of an absent path (class %s) changed the document: %s -> %s", cls2, docString(d.ref), docString(doc2)))
 			}
 		}
+		if cls2 == ClsOk && found2 != nil { // something was removed: the Content slice was truncated in place
+			lawCopyIndependent14(s, c, doc2, c.Path)
+		}
 		return cls2, found2 != nil
 	case "lookupcreate", "putnc", "putscalar":
 		doc := d.ref.Copy()
@@ -845,6 +862,31 @@ func laws14doc(s sink, c case14, d *docCtx14, probes []probe14) (cls string, got
 		return lawsAPI14(s, c, d)
 	}
 	return "", false
+}
+
+// lawCopyIndependent14: RNode.Copy() yields an independent document: writing to the copy leaves the original
+// untouched and writing to the original leaves the copy untouched. Checked on the document [doc] as an operation left
+// it, with two puts at [path] (the node the operation worked on). The model is value based (a copy is the same value),
+// so this is an implementation-only law.
+func lawCopyIndependent14(s sink, c case14, doc *kyaml.RNode, path []string) {
+	if doc == nil || !wellFormed14(doc.YNode()) {
+		return
+	}
+	s.Count("law_domain", "copy-independent")
+	before := docString(doc)
+	cp := doc.Copy()
+	clsC, _, _ := putOn(cp, path, "zz1", kyaml.NewScalarRNode("1"))
+	if docString(doc) != before {
+		s.Violation(OracleViolation{Law: "copy_independent", Class: "C14/copy-shares-content",
+			Detail: fmt.Sprintf("a put on the Copy() (class %s) changed the original: %s -> %s", clsC, before, docString(doc)), Replay: c})
+		return
+	}
+	cpAfter := docString(cp)
+	clsO, _, _ := putOn(doc, path, "zz2", kyaml.NewScalarRNode("2"))
+	if docString(cp) != cpAfter {
+		s.Violation(OracleViolation{Law: "copy_independent", Class: "C14/copy-shares-content",
+			Detail: fmt.Sprintf("a put on the original (class %s) changed its earlier Copy(): %s -> %s", clsO, cpAfter, docString(cp)), Replay: c})
+	}
 }
 
 func lawsPutScalar14(s sink, c case14, d *docCtx14, doc1 *kyaml.RNode) {
@@ -1001,6 +1043,9 @@ func caseTermObs14(c case14, cls string, doc, found *kyaml.RNode, obs string) (s
 		}
 	case "clear":
 		op = fmt.Sprintf("(OClear %s)", coqStr(c.Name))
+	case "copyindep":
+		op = fmt.Sprintf("(OCopyIndep %s)", coqStr(c.Name))
+		vals["1"], vals["2"] = true, true
 	case "fieldspec":
 		op = c.FS.coqOp()
 		vals["MARK"] = true
@@ -1083,7 +1128,7 @@ func genProbes14(g *Rng, full []string) [][]string {
 func runC14(r *Run, rng *Rng, tier string) error {
 	nModel, nLaw, nFS, nFSLaw := 900, 4000, 500, 2500
 	if tier == "thorough" {
-		nModel, nLaw, nFS, nFSLaw = 9000, 100000, 4000, 40000
+		nModel, nLaw, nFS, nFSLaw = 6000, 100000, 3000, 40000
 	}
 	r.Meta.Rule = "path ops: random block-YAML mappings (depth<=3, keys a/b/name/c, scalars x/y/1/\"1\"/null/true/\"\"/yes, " +
 		"keyed and primitive lists, rare duplicate keys); paths of length<=4 over keys, [name=v], [=v], indices, '-', rare malformed parts; " +
@@ -1113,6 +1158,25 @@ func runC14(r *Run, rng *Rng, tier string) error {
 			c.Value = &v
 		case "clear":
 			c.Name = g.Pick(c14Keys)
+			if g.Chance(40) {
+				c.Op = "copyindep"
+				// aim at an existing field most of the time, the only field of its mapping if there is one
+				maps := []seqAt{}
+				sq := []seqAt{}
+				collect14(root, nil, &sq, &maps, 0)
+				if len(maps) > 0 && !g.Chance(20) {
+					m := maps[g.Intn(len(maps))]
+					for _, cand := range maps {
+						if len(cand.seq.keys) == 1 && g.Chance(60) {
+							m = cand
+						}
+					}
+					c.Path = m.path
+					if len(m.seq.keys) > 0 {
+						c.Name = m.seq.keys[g.Intn(len(m.seq.keys))]
+					}
+				}
+			}
 		}
 		if c.Op == "put" {
 			v2 := c14Values[g.Intn(len(c14Values))]
@@ -1137,7 +1201,7 @@ func runC14(r *Run, rng *Rng, tier string) error {
 	}
 	nAPI := 700
 	if tier == "thorough" {
-		nAPI = 8000
+		nAPI = 5000
 	}
 	for i := 0; i < nAPI; i++ {
 		runOne14(r, genAPICase14(rng.Fork()), true)
@@ -1147,6 +1211,26 @@ func runC14(r *Run, rng *Rng, tier string) error {
 		c := genAPICase14(g)
 		runOne14(r, c, false)
 		lawSplit14(r, c, g)
+	}
+	// anchors / aliases / merge keys: the de-anchored document goes to the model and the laws; the operation on the
+	// document as written runs on the implementation only and is counted as skipped when its result is unrepresentable
+	nAlias := 120
+	if tier == "thorough" {
+		nAlias = 1500
+	}
+	for i := 0; i < nAlias; i++ {
+		c, raw, ok := genAliasCase14(rng.Fork(), r)
+		if ok {
+			r.Count("alias_docs", "de-anchored: sent to the model")
+			runOne14(r, c, true)
+		}
+		cls, doc, found, _ := exec14(raw)
+		if _, rep := caseTerm14(raw, cls, doc, found); rep {
+			r.Count("alias_docs", "as written: representable result")
+		} else {
+			r.Count("alias_docs", "as written: implementation only (alias nodes are not representable)")
+			r.Meta.Skipped++
+		}
 	}
 	for i := 0; i < nLaw; i++ {
 		g := rng.Fork()
